@@ -384,7 +384,7 @@ class Cleanup:
 
 
 def centrifugate_hints(
-    source: Source, match_isolated_hints: Callable = regex.compile(fr"\s*{HINT_COMMENT}(?: (.*))?$").match
+    source: Source, match_isolated_hints: Callable = regex.compile(fr"[\s\x1c-\x1f]*{HINT_COMMENT}(?: (.*))?$").match
 ) -> Source:
     """Transform the isolated hints into all-encompassing hints.
 
@@ -592,7 +592,7 @@ def collect_hints(
 
 def remove_hints(
     source: Source,
-    sub_hints: Callable = regex.compile(fr"\s*{HINT_COMMENT} .*").sub,
+    sub_hints: Callable = regex.compile(fr"[\s\x1c-\x1f]*{HINT_COMMENT} .*").sub,
 ) -> Source:
     """Once they are collected, remove all Paroxython hints from the given source.
 
